@@ -82,6 +82,8 @@ def run(ctx):
   rule_tables(ctx, tier)
   rule_consist(ctx)
   rule_rank_blocks(ctx)
+  rule_cycles(ctx)
+  ctx.expect("R-C12-CYCLES", 1, "the digit loop of RandomWalk")
   rule_minsize(ctx)
   rule_cusum(ctx)
   rule_formula(ctx)
@@ -2093,6 +2095,116 @@ def rule_rank_blocks(ctx):
       probs.append("the loop does not make len(rows) // r passes (%r)" % (vis["iter"],))
   probs = sorted(set(probs))
   ctx.record(R, f.where, "matrix i = rows[i*r:(i+1)*r], i < len(rows) // r", not probs, "; ".join(probs) or "disjoint consecutive groups of r rows, all full groups used")
+
+
+# ------------------------------------------------------------------ random excursions: cycles and the visits counted in them
+def rule_cycles(ctx):
+  """NIST 2.14 / 2.15: the walk S_k = sum of the +-1 digits is cut into cycles at its zeros; for every cycle the visits to each state x with 0 < |x| <= band
+  are counted.  Read off the digit loop by roles (no names): the walk variable is the one the digit is added to, the current cycle is the modified variable
+  that starts as an empty counter, the cycle list the one that starts as an empty list.  For every new state S' (evaluated on a grid around the band with
+  band = max(max_state, max_state_variant)) the pass that is taken must: outside the band leave the counters alone; inside, off zero, add 1 to the current
+  cycle's entry S' - and nothing else; at zero append the *current* cycle and replace it by a fresh empty counter (appending without replacing makes all
+  cycles one shared object).  After the loop the last (open) cycle is appended once."""
+  R = "R-C12-CYCLES"
+  repo = ctx.repo
+  f = repo.func(MOD, "RandomWalk")
+  w = sym.Walker(repo, f)
+  w.run()
+  bits, n = P("param", f.params()[0]), P("param", f.params()[1])
+  want_iter = sym.mk("call", P("lit", "randomness_tests.util:Bits"), bits, n)
+  loops = [i for i in w.loop_info.values() if isinstance(i["node"], ast.For) and i.get("visits") and isinstance(i["visits"][0]["iter"], Poly) and i["visits"][0]["iter"] == want_iter]
+  if len(loops) != 1:
+    ctx.incomplete(R, f.where, "digit loop", "expected one loop over util.Bits(bits, n), found %d" % len(loops))
+    return
+  info = loops[0]
+  probs = []
+  def is_counter(v):
+    a = v.as_atom() if isinstance(v, Poly) else None
+    return a is not None and (a.kind == "emptydict" or (a.kind == "defaultdict" and len(a.args) == 1 and repr(a.args[0]) == "glob('int')"))
+  for vis in info["visits"]:
+    head, pre = vis["head"].env, vis["pre_env"]
+    el = sym.mk("idx", want_iter, as_poly(vis["k"]))
+    D = [v_ for v_ in info["modified"] if is_counter(pre.get(v_))]
+    C = [v_ for v_ in info["modified"] if isinstance(pre.get(v_), Seq) and not pre[v_].items and pre[v_].kind == "list"]
+    W = []
+    for kind, val, s_, since, v2 in info["body_paths"]:
+      if v2 is not vis:
+        continue
+      for v_ in info["modified"]:
+        hv, ev_ = head.get(v_), s_.env.get(v_)
+        if isinstance(hv, Poly) and isinstance(ev_, Poly) and (ev_ - hv - el).is_zero() and v_ not in W:
+          W.append(v_)
+    if len(D) != 1 or len(C) != 1 or len(W) != 1:
+      ctx.incomplete(R, f.where, "digit loop", "cannot identify the walk, the current cycle and the cycle list (%s, %s, %s)" % (W, D, C))
+      return
+    D, C, W = D[0], C[0], W[0]
+    if not (isinstance(pre.get(W), (Poly, Const, int)) and as_poly(pre[W]).is_zero()):
+      probs.append("the walk does not start at S_0 = 0")
+    S1 = as_poly(head[W]) + el
+    ms = [P("param", x_) for x_ in f.params() if x_ in ("max_state", "max_state_variant")]
+    syms = sorted({t_ for kind, val, s_, since, v2 in info["body_paths"] if v2 is vis for c_, pol, node in s_.pc[len(vis["head"].pc):]
+                   for q_ in sym._cond_polys(c_) if isinstance(q_, Poly) for t_ in q_.all_atoms() if t_.kind == "sym" and t_ != as_poly(head[W]).as_atom()}, key=repr)
+    band = 9
+    n_pts = 0
+    for sv in range(-band - 3, band + 4):
+      for dig in (1, -1):
+        for other in (-30, 0, 30):
+          env = {el.as_atom(): dig, as_poly(head[W]).as_atom(): sv - dig}
+          for x_ in ms:
+            env[x_.as_atom()] = 4 if str(x_.as_atom().args[0]) == "max_state" else band
+          for t_ in syms:
+            env[t_] = other
+          val_ = regions.Valuation(env)
+          taken = []
+          for bp in info["body_paths"]:
+            if bp[4] is not vis:
+              continue
+            try:
+              if all(regions.eval_cond(c_, val_) == pol for c_, pol, node in bp[2].pc[len(vis["head"].pc):]):
+                taken.append(bp)
+            except regions.Unknown as u:
+              ctx.incomplete(R, f.where, "digit loop", "a branch condition of the digit loop is not evaluable on the grid: %s" % u)
+              return
+          if len(taken) != 1:
+            probs.append("for the new state %d, %d passes of the loop body are possible" % (sv, len(taken)))
+            continue
+          n_pts += 1
+          kind, val, s_, since, v2 = taken[0]
+          evs = [w.events[i_] for i_ in s_.trace[since:]]
+          stores = [e for e in evs if e.kind == "store" and isinstance(e.data.get("base"), Poly) and e.data["base"] == as_poly(head[D])]
+          other_stores = [e for e in evs if e.kind == "store" and e not in stores]
+          apps = [e for e in evs if e.kind == "mutate" and e.data["method"] == "append" and isinstance(e.data.get("recv"), Poly) and e.data["recv"] == as_poly(head[C])]
+          dend, cend = s_.env.get(D), s_.env.get(C)
+          if kind not in ("fall", "continue"):
+            probs.append("the digit loop is left by `%s` at state %d" % (kind, sv))
+            continue
+          if abs(sv) > band or sv == 0:
+            if stores or other_stores:
+              probs.append("a visit is counted for the state %d (%s)" % (sv, "outside the band" if sv else "the zero that closes the cycle"))
+          else:
+            ok_store = len(stores) == 1 and not other_stores and as_poly(stores[0].data["index"]) == S1 and \
+                (as_poly(stores[0].data["value"]) - sym.mk("idx", as_poly(head[D]), S1) - 1).is_zero()
+            if not ok_store:
+              probs.append("the visit to state %d (inside the band) is not counted once in the current cycle under that state" % sv)
+          if sv == 0:
+            if len(apps) != 1 or not (isinstance(apps[0].data["args"][0], Poly) and apps[0].data["args"][0] == as_poly(head[D])):
+              probs.append("a zero of the walk does not append the current cycle to the cycle list")
+            if not is_counter(dend):
+              probs.append("after a zero of the walk the current cycle is not replaced by a fresh empty counter (%r): the cycles share one object" % (dend,))
+          else:
+            if apps or not (isinstance(cend, Poly) and cend == as_poly(head[C])):
+              probs.append("the cycle list changes at the non-zero state %d" % sv)
+            if sv != 0 and abs(sv) > band and not (isinstance(dend, Poly) and dend == as_poly(head[D])):
+              probs.append("the current cycle changes at state %d outside the band" % sv)
+    # after the loop: the open cycle is appended once
+    aft = vis.get("after_env") or {}
+    tail = [e for e in w.events if e.kind == "mutate" and e.data["method"] == "append" and isinstance(e.data.get("recv"), Poly) and isinstance(aft.get(C), Poly) and
+            e.data["recv"] == aft[C]]
+    if len({id(e.node) for e in tail}) != 1 or not all(isinstance(e.data["args"][0], Poly) and isinstance(aft.get(D), Poly) and e.data["args"][0] == aft[D] for e in tail):
+      probs.append("the cycle that is open when the digits end is not appended exactly once after the loop")
+  probs = sorted(set(probs))
+  ctx.record(R, f.where, "cycles cut at the zeros of the walk; visits counted per cycle and state inside the band", not probs, "; ".join(probs[:4]) or
+             "evaluated for the new states -12 .. 12 with band 9: count once inside the band, close and renew the cycle at zero, ignore the rest; last cycle appended")
 
 
 # ------------------------------------------------------------------ UNIVERSAL parameters (L by n, Q = 10 * 2^L)
